@@ -8,6 +8,7 @@ import (
 	"encoding/hex"
 	"fmt"
 	"os"
+	"sort"
 	"strconv"
 	"strings"
 
@@ -80,3 +81,5 @@ func main() {
 	}
 	f(c)
 }
+
+func sortStrings(p []string) { sort.Strings(p) }
